@@ -189,8 +189,9 @@ def ppTokens (ts : List PTok) : List Tok :=
 
 def plain (ts : List Tok) : List HTok := ts.map (⟨·, []⟩)
 
-/-- the reference reading of a model macro: parameters are named by position -/
-def paramName (i : Nat) : String := "$" ++ toString i
+/-- the reference reading of a model macro: parameters are named by position (`$`, `$$`, `$$$`, …: spellings no
+identifier has) -/
+def paramName (i : Nat) : String := String.ofList (List.replicate (i + 1) '$')
 
 def specBodyTok : Tok → Tok
   | .arg i => .id (paramName i)
